@@ -6,6 +6,7 @@ import (
 	"fmt"
 	"go/constant"
 	"go/token"
+	"go/types"
 	"sort"
 	"strings"
 
@@ -108,7 +109,7 @@ func indexGetTests(fn *ssa.Function, pkg string, states ...string) ([]boolTest, 
 	return tests, n
 }
 
-func checkStateGate(c *Ctx, rule, pkg, label, method string, sinks []string) {
+func checkStateGate(c *Ctx, li *lockInfo, rule, pkg, label, method string, sinks []string) {
 	f := c.MustFn(rule, strings.TrimPrefix(pkg, repoMod+"/"), "(*SpaceKeeper)."+method)
 	if f == nil {
 		return
@@ -123,6 +124,27 @@ func checkStateGate(c *Ctx, rule, pkg, label, method string, sinks []string) {
 	r := reach(f, nil, boolEdgeCut(tests, true), nil)
 	bad := false
 	nSinks := 0
+	// the gate is only a gate if test and effect are one critical section: the membership tests
+	// themselves must run with stateLock held for writing (otherwise check-then-act: MineWS or the
+	// plotter can change the state between the test and the effect)
+	if li != nil {
+		for _, g := range callsIn(f, "(*"+pkg+".WorkSpaceMap).Get") {
+			st := wsIndexState(callRecv(g))
+			if st != "0" && st != "2" {
+				continue
+			}
+			heldW := false
+			for k := range li.at[g] {
+				if k.Class == pkg+".SpaceKeeper.stateLock" && k.Mode == 'W' {
+					heldW = true
+				}
+			}
+			if !heldW {
+				bad = true
+				c.Bad(rule, key, c.Pos(g.Pos()), "the Registered/Ready membership test runs without stateLock held for writing (lockset "+li.at[g].String()+"): the state can change between the test and the remove/delete effect, so a space that has become plotting or mining is removed or deleted")
+			}
+		}
+	}
 	allInstrs(f, func(in ssa.Instruction) {
 		id := calleeID(in)
 		isSink := false
@@ -264,10 +286,20 @@ func checkC11(c *Ctx) Meta {
 	}
 
 	// ---- GATE
-	checkStateGate(c, "C11-GATE", pkgCapacity, "capacity", "RemoveWS", []string{"(*" + pkgCapacity + ".SpaceKeeper).disuseWorkSpace"})
-	checkStateGate(c, "C11-GATE", pkgCapacity, "capacity", "DeleteWS", []string{"(*" + pkgCapacity + ".SpaceKeeper).disuseWorkSpace", "(*" + pkgCapacity + ".WorkSpace).Delete"})
-	checkStateGate(c, "C11-GATE", pkgSkchia, "skchia", "RemoveWS", []string{"(*" + pkgSkchia + ".SpaceKeeper).disuseWorkSpace"})
-	checkStateGate(c, "C11-GATE", pkgSkchia, "skchia", "DeleteWS", []string{"(*" + pkgSkchia + ".SpaceKeeper).disuseWorkSpace", "(*" + pkgSkchia + ".WorkSpace).Delete"})
+	liOf := func(pkg string) *lockInfo {
+		scope := map[*ssa.Function]bool{}
+		for fn := range c.AllFuncs {
+			if pkgOf(fn) == pkg {
+				scope[fn] = true
+			}
+		}
+		return computeLocksets(c, scope, map[string]bool{}, func(fn *ssa.Function) bool { return isExportedFunc(fn) })
+	}
+	liCap, liChia := liOf(pkgCapacity), liOf(pkgSkchia)
+	checkStateGate(c, liCap, "C11-GATE", pkgCapacity, "capacity", "RemoveWS", []string{"(*" + pkgCapacity + ".SpaceKeeper).disuseWorkSpace"})
+	checkStateGate(c, liCap, "C11-GATE", pkgCapacity, "capacity", "DeleteWS", []string{"(*" + pkgCapacity + ".SpaceKeeper).disuseWorkSpace", "(*" + pkgCapacity + ".WorkSpace).Delete"})
+	checkStateGate(c, liChia, "C11-GATE", pkgSkchia, "skchia", "RemoveWS", []string{"(*" + pkgSkchia + ".SpaceKeeper).disuseWorkSpace"})
+	checkStateGate(c, liChia, "C11-GATE", pkgSkchia, "skchia", "DeleteWS", []string{"(*" + pkgSkchia + ".SpaceKeeper).disuseWorkSpace", "(*" + pkgSkchia + ".WorkSpace).Delete"})
 	if f := c.MustFn("C11-GATE", "poc/engine/massdb/massdb.v1", "(*MassDBV1).Delete"); f != nil {
 		key := "MassDBV1.Delete:refuses-while-plotting"
 		var tests []boolTest
@@ -368,6 +400,14 @@ func checkC11(c *Ctx) Meta {
 				}
 				sx, sy := backSlice(bo.X), backSlice(bo.Y)
 				if (sx.has(idx) && sy.has(ord)) || (sx.has(ord) && sy.has(idx)) {
+					if lc := lossyConversion(bo.X); lc != "" {
+						c.Bad("C11-LOAD", "generateInitialIndex:ordinal-equals-wallet", c.Pos(bo.Pos()), "the ordinal comparison is not exact: an operand passes through the narrowing conversion "+lc+", so a file name ordinal congruent to the wallet's ordinal modulo 2^32 is accepted")
+						return
+					}
+					if lc := lossyConversion(bo.Y); lc != "" {
+						c.Bad("C11-LOAD", "generateInitialIndex:ordinal-equals-wallet", c.Pos(bo.Pos()), "the ordinal comparison is not exact: an operand passes through the narrowing conversion "+lc+", so a file name ordinal congruent to the wallet's ordinal modulo 2^32 is accepted")
+						return
+					}
 					for _, bt := range boolTestsOf(f, bo) {
 						if bo.Op == token.NEQ {
 							bt.TrueSucc, bt.FalseSucc = bt.FalseSucc, bt.TrueSucc
@@ -704,4 +744,45 @@ func isFailureHelperReturn(fn *ssa.Function, r *ssa.Return) bool {
 		}
 	})
 	return isHelper
+}
+
+// lossyConversion: the operand chain (conversions only) contains an integer conversion that can lose
+// information (narrowing, or same width with a sign change); returns a description or "".
+func lossyConversion(v ssa.Value) string {
+	for {
+		switch x := v.(type) {
+		case *ssa.Convert:
+			from, ok1 := x.X.Type().Underlying().(*types.Basic)
+			to, ok2 := x.Type().Underlying().(*types.Basic)
+			if ok1 && ok2 && from.Info()&types.IsInteger != 0 && to.Info()&types.IsInteger != 0 {
+				fs, ts := intBits(from), intBits(to)
+				fu, tu := from.Info()&types.IsUnsigned != 0, to.Info()&types.IsUnsigned != 0
+				if ts < fs || (ts == fs && fu != tu) || (!fu && tu && ts >= fs && false) {
+					return from.Name() + "->" + to.Name()
+				}
+				// signed -> wider unsigned loses the sign of negatives; unsigned -> wider signed is exact
+				if !fu && tu {
+					return from.Name() + "->" + to.Name()
+				}
+			}
+			v = x.X
+		case *ssa.ChangeType:
+			v = x.X
+		default:
+			return ""
+		}
+	}
+}
+
+func intBits(b *types.Basic) int {
+	switch b.Kind() {
+	case types.Int8, types.Uint8:
+		return 8
+	case types.Int16, types.Uint16:
+		return 16
+	case types.Int32, types.Uint32:
+		return 32
+	default:
+		return 64
+	}
 }
